@@ -3,6 +3,7 @@ Helper lemmas for C09 `first_order_is_observation_order`: the rank map of a `fir
 list of its distinct values in order of first observation, numbered 0,1,2,…
 -/
 import Proofs.Lemmas.C08Inv
+import Proofs.Lemmas.C08Val
 
 namespace C09
 open Proc.Sort Proc.Projection Proc.Extract C08
@@ -277,5 +278,138 @@ theorem mem_firstOcc (s : List Bytes) (v : Bytes) : v ∈ firstOcc s ↔ v ∈ s
   unfold firstOcc
   rw [mem_foldl_firstOcc]
   simp
+
+/-- The order of first occurrence among the distinct values is the order of first occurrence in
+the raw sequence. -/
+theorem firstOcc_idxOf_lt : ∀ (s : List Bytes) (v w : Bytes), v ∈ s → w ∈ s →
+    ((firstOcc s).idxOf v < (firstOcc s).idxOf w ↔ s.idxOf v < s.idxOf w) := by
+  intro s
+  refine snoc_induction (P := fun s => ∀ (v w : Bytes), v ∈ s → w ∈ s →
+    ((firstOcc s).idxOf v < (firstOcc s).idxOf w ↔ s.idxOf v < s.idxOf w)) ?_ ?_ s
+  · intro v w hv; simp at hv
+  · intro s x ih v w hv hw
+    rw [firstOcc_snoc]
+    simp only [List.idxOf_append]
+    have hlen : ∀ a, a ∈ firstOcc s → (firstOcc s).idxOf a < (firstOcc s).length :=
+      fun a ha => List.idxOf_lt_length_of_mem ha
+    have hlen' : ∀ a, a ∈ s → s.idxOf a < s.length := fun a ha => List.idxOf_lt_length_of_mem ha
+    by_cases hvs : v ∈ s <;> by_cases hws : w ∈ s
+    · have hvF := (mem_firstOcc s v).mpr hvs
+      have hwF := (mem_firstOcc s w).mpr hws
+      by_cases hx : x ∈ firstOcc s
+      · simp only [hx, if_true, hvs, hws]; exact ih v w hvs hws
+      · simp only [hx, if_false, List.idxOf_append, hvF, hwF, if_true, hvs, hws]; exact ih v w hvs hws
+    · have hwx : w = x := by
+        simp only [List.mem_append, List.mem_singleton] at hw
+        rcases hw with h | h
+        · exact absurd h hws
+        · exact h
+      subst hwx
+      have hxF : w ∉ firstOcc s := fun h => hws ((mem_firstOcc s w).mp h)
+      have hvF := (mem_firstOcc s v).mpr hvs
+      have a := hlen v hvF
+      have b := hlen' v hvs
+      simp [hxF, hvF, hvs, hws, List.idxOf_append]
+      omega
+    · have hvx : v = x := by
+        simp only [List.mem_append, List.mem_singleton] at hv
+        rcases hv with h | h
+        · exact absurd h hvs
+        · exact h
+      subst hvx
+      have hxF : v ∉ firstOcc s := fun h => hvs ((mem_firstOcc s v).mp h)
+      have hwF := (mem_firstOcc s w).mpr hws
+      have a := hlen w hwF
+      have b := hlen' w hws
+      simp [hxF, hwF, hvs, hws, List.idxOf_append]
+      omega
+    · have hvx : v = x := by
+        simp only [List.mem_append, List.mem_singleton] at hv
+        rcases hv with h | h
+        · exact absurd h hvs
+        · exact h
+      have hwx : w = x := by
+        simp only [List.mem_append, List.mem_singleton] at hw
+        rcases hw with h | h
+        · exact absurd h hws
+        · exact h
+      subst hvx; subst hwx
+      simp
+
+/-! ### The stream of projected results -/
+
+/-- Interning a row extends the per-field sequence of node values by at most that row's value, and
+in a way that keeps "distinct values in order of first occurrence" in step with the stream. -/
+theorem internRow_obs (h : List Bytes → UInt64) (p : Proj) (i : Nat) (S : List Bytes)
+    (hS : firstOcc S = firstOcc (obsSeq p i)) :
+    firstOcc (S ++ [getVal p.row i]) = firstOcc (obsSeq (p.internRow h).1 i) := by
+  obtain ⟨_, _, _, _, _, hn, hk, hv⟩ := internRow_spec h p
+  rcases hn with hn | ⟨hn, _⟩
+  · -- the row is already a node: its value is already among the observed ones
+    have hobs : obsSeq (p.internRow h).1 i = obsSeq p i := by unfold obsSeq; rw [hn]
+    rw [hobs, firstOcc_snoc, hS]
+    have hmem : getVal p.row i ∈ obsSeq p i := by
+      rw [hn] at hk
+      have hvv : (p.internRow h).1.vals (p.internRow h).2 = p.nodes[(p.internRow h).2].vals := by
+        simp [Proj.vals, hn, List.getElem?_eq_getElem hk]
+      unfold obsSeq
+      refine List.mem_map.mpr ⟨p.nodes[(p.internRow h).2], List.getElem_mem hk, ?_⟩
+      rw [← hvv, hv, getVal_trim]
+    rw [if_pos ((mem_firstOcc _ _).mpr hmem)]
+  · have hobs : obsSeq (p.internRow h).1 i = obsSeq p i ++ [getVal p.row i] := by
+      unfold obsSeq; rw [hn]; simp [getVal_trim]
+    rw [hobs, firstOcc_snoc, firstOcc_snoc, hS]
+
+/-- A stream of `Project` calls (each under whatever the parser state is then); returns the final
+state and the populated row of every call. -/
+def runProjects (h : List Bytes → UInt64) : Proj → List (Env × Res) → Proj × List (List Bytes)
+  | p, [] => (p, [])
+  | p, (env, r) :: rest =>
+    ((runProjects h ((p.populateRow env r).internRow h).1 rest).1,
+     (p.populateRow env r).row :: (runProjects h ((p.populateRow env r).internRow h).1 rest).2)
+
+theorem populateRow_nodes (env : Env) (p : Proj) (r : Res) : (p.populateRow env r).nodes = p.nodes := by
+  have hstep : ∀ (pos : Nat) (o : Order) (q : Proj) (c : Bytes × Bytes × Bool),
+      (configStep env pos o q c).nodes = q.nodes := by
+    intro pos o q c
+    unfold configStep
+    split
+    · rfl
+    · split
+      · rfl
+      · split <;> rfl
+  have hpart : ∀ (q : Proj) (part : Part), (runPart env r q part).nodes = q.nodes := by
+    intro q part
+    cases part with
+    | config pos o =>
+      simp only [runPart]
+      generalize r.config = cfgs
+      induction cfgs generalizing q with
+      | nil => rfl
+      | cons c rest ih => simp only [List.foldl_cons]; rw [ih, hstep]
+    | fullname idx => rfl
+    | key k idx => rfl
+  unfold Proj.populateRow
+  generalize p.parts = parts
+  have : ∀ q : Proj, (parts.foldl (runPart env r) q).nodes = q.nodes := by
+    induction parts with
+    | nil => intro q; rfl
+    | cons x rest ih => intro q; simp only [List.foldl_cons]; rw [ih, hpart]
+  exact this _
+
+theorem runProjects_obs (h : List Bytes → UInt64) (ops : List (Env × Res)) (p : Proj) (i : Nat) (S : List Bytes)
+    (hS : firstOcc S = firstOcc (obsSeq p i)) :
+    firstOcc (S ++ (runProjects h p ops).2.map (fun row => getVal row i)) =
+      firstOcc (obsSeq (runProjects h p ops).1 i) := by
+  induction ops generalizing p S with
+  | nil => simpa [runProjects] using hS
+  | cons op rest ih =>
+    obtain ⟨env, r⟩ := op
+    simp only [runProjects, List.map_cons]
+    have hS' : firstOcc S = firstOcc (obsSeq (p.populateRow env r) i) := by
+      rw [hS]; unfold obsSeq; rw [populateRow_nodes]
+    have := ih ((p.populateRow env r).internRow h).1 (S ++ [getVal (p.populateRow env r).row i])
+      (internRow_obs h (p.populateRow env r) i S hS')
+    simpa using this
 
 end C09
